@@ -463,7 +463,20 @@ func (w *RW) Do(i int, msg sdk.Msg) (chain.TxResult, bool) {
 	if b, ok := msg.(*rnstypes.MsgBid); ok && w.rc.Chance(0.2) {
 		b.Creator = strings.ToUpper(b.Creator)
 	}
-	res := w.c.DeliverAs(i, msg)
+	var res chain.TxResult
+	if w.rc.Chance(0.05) {
+		// the message travels in one transaction with a second message of the same signer that is bound to fail
+		// (cancelling a bid that was never placed): the whole transaction is refused and nothing of the first
+		// message may remain, whatever it would have done on its own
+		res = w.c.DeliverAs(i, msg, &rnstypes.MsgCancelBid{Creator: w.c.Accs[i].Bech, Name: "never-bid-on-" + fmt.Sprint(h) + ".jkl"})
+		w.rc.Count("messages_in_a_transaction_that_rolls_back", 1)
+		if res.OK() {
+			// not demanded by any statement: a chain that treats such a cancel as a no-op is judged on the first message alone
+			w.rc.Count("rollback_transactions_that_went_through", 1)
+		}
+	} else {
+		res = w.c.DeliverAs(i, msg)
+	}
 	post, err := w.observe()
 	if err != nil {
 		w.rc.Abort("observe: " + err.Error())
